@@ -111,7 +111,15 @@ func (s *Script) Compile() (*Compiled, error) {
 	}
 
 	// reduce globals size
-	globals = globals[:symbolTable.MaxSymbols()+1]
+	numGlobals := symbolTable.MaxSymbols()
+	if numGlobals > GlobalsSize {
+		return nil, fmt.Errorf("too many global variables: %d (max %d)",
+			numGlobals, GlobalsSize)
+	}
+	if numGlobals < GlobalsSize {
+		numGlobals++
+	}
+	globals = globals[:numGlobals]
 
 	// global symbol names to indexes
 	globalIndexes := make(map[string]int, len(globals))
@@ -181,6 +189,11 @@ func (s *Script) prepCompile() (
 	}
 
 	globals = make([]Object, GlobalsSize)
+	if len(names) > GlobalsSize {
+		err = fmt.Errorf("too many variables: %d (max %d)",
+			len(names), GlobalsSize)
+		return
+	}
 
 	for idx, name := range names {
 		symbol := symbolTable.Define(name)
